@@ -1242,3 +1242,15 @@ TRUSTED = list(TRUSTED) + [
     "ClassicalDedekindReals.sig_forall_dec, FunctionalExtensionality.functional_extensionality_dep, Classical_Prop.classic (the real-number axioms Flocq and Reals rest on); "
     "every other theorem, the premise-carrying form roundtrip_duration_deepcopy_given_float_premise included, is closed under the global context",
 ]
+
+
+# FixedTimezone.__init__'s default name is translated from /repo on every run and the hand model is PROVED equal to it on the offsets a tzinfo may return
+TRUSTED = list(TRUSTED) + [
+    "tools/vlib/pyfloat2gallina.py + tools/vlib/gens/g72_fixedtz_init.py (the statements of FixedTimezone.__init__ before the attribute assignments, translated on every run -> coq/Gen/FixedTzInit.v; "
+    "reading rule: the function returns what `if not name:` assigns to name; int / int = Model/DurationOps.py_int_truediv, f\"{n:02d}\" = Model/Formatter.render_0wd 2): "
+    "model_is_code_fixed_timezone_default_name replaces the trust in Model/Pickle.default_name for -86400 < offset < 86400 (exhaustive kernel evaluation, closed under the global context); "
+    "outside that range default_name, and the other hand-transcribed bodies of Model/Pickle.v (interval_new = Interval.__new__ / __init__, pendulum_tz = DateTime.timezone / tz, Timezone.__new__ "
+    "forwarding its key), stay hand-written + pinned by text in g60_pickle.py; Duration.__new__ / AbsoluteDuration.__new__ are Model/Duration.v, proved equal to the translated code in C09",
+]
+LEVEL_NOTE = LEVEL_NOTE + (" Method bodies: the argument lists are generated data; the default name of FixedTimezone.__init__ is translated on every run and proved equal to the model for |offset| < 24 h "
+                           "(model_is_code_fixed_timezone_default_name; self-tested by mutation); Interval.__new__ / __init__, DateTime.timezone / tz and Timezone.__new__ stay hand-transcribed and pinned by text.")
